@@ -597,6 +597,11 @@ func (k *Kernel) addProposedHeader(ctx context.Context, s *kState, ph tmconsensu
 		}
 
 		if mergedAny {
+			// The committing view gained precommits, so its vote summary must follow.
+			backfillVRV.VoteSummary.SetPrecommitPowers(
+				backfillVRV.ValidatorSet.Validators, backfillVRV.PrecommitProofs,
+			)
+
 			// We've updated the previous precommits, so the round store needs updated.
 			if err := k.rStore.OverwriteRoundPrecommitProofs(
 				ctx,
